@@ -465,6 +465,7 @@ def build(tier, seed):
     for i in range(0, len(ws), CH):
         cases.append({'part': 'B', 'words': ws[i:i + CH]})
     return {
+        'rule_more': 'B also: every registered object-taking function called, the object edited by each mutator of the C04 alphabet in turn, called again vs a fresh object with the same values (words of length 3); argument arrays refilled in place between two calls; a result held for one argument while the function is called with another',
         'cases': cases,
         'rule': 'A: every mutator sequence of length <= %d after {constructor, reset_values} x {Signal, AccSignal} x caller container '
                 '{float64, int64, list} (+ Cluster.time_match/same_start); B: %d registered array-level and %d object-level public functions x '
